@@ -8,7 +8,9 @@ CONSTANTS
   XVals <- c_X
   QVals = {0, 50}
   DVals = {0, 1000}
-  Ops = {"load", "react", "adiabatic", "warm"}
+  HfChems = {3}
+  HfVals <- c_HfVals
+  Ops = {"load", "react", "adiabatic", "warm", "set_Hf"}
 VIEW view
 CONSTRAINT Depth
 INVARIANT LedgerOK
